@@ -161,6 +161,31 @@ def r2_filter_dominance(ctx, rep):
                         par = py.parents.get(n)
                         if isinstance(par, ast.Call) and call_name(par) == "any":
                             good = True
+    if not good:
+        # the same test against a local set of the recorded last elements: `known = {c[-1] for c in self.calls}` ...
+        # `if name in known: continue` ... `known.add(name)` next to the append (so that a repetition inside one statement
+        # is still seen)
+        for d in negs:
+            if not (isinstance(d, ast.Compare) and len(d.ops) == 1 and isinstance(d.ops[0], ast.In) and isinstance(d.comparators[0], ast.Name)
+                    and is_last_of_chain(d.left)):
+                continue
+            known = d.comparators[0].id
+            builds = [v for _s, v in astq.assignments(fn, known) if isinstance(v, (ast.SetComp, ast.ListComp, ast.GeneratorExp, ast.Call))]
+            from_calls = False
+            for v in builds:
+                for n in ast.walk(v):
+                    if isinstance(n, (ast.SetComp, ast.ListComp, ast.GeneratorExp)) and len(n.generators) == 1 and \
+                            ast.unparse(n.generators[0].iter) == "self.calls" and isinstance(n.generators[0].target, ast.Name) and \
+                            isinstance(n.elt, ast.Subscript) and isinstance(n.elt.value, ast.Name) and \
+                            n.elt.value.id == n.generators[0].target.id and ast.unparse(n.elt.slice) == "-1":
+                        from_calls = True
+            kept_up = any(e.kind == "call" and isinstance(e.node.func, ast.Attribute) and e.node.func.attr in ("add", "append")
+                          and isinstance(e.node.func.value, ast.Name) and e.node.func.value.id == known and e.node.args
+                          and is_last_of_chain(e.node.args[0])
+                          and [(id(t_), p_) for t_, p_, _ in e.conds] == [(id(t_), p_) for t_, p_, _ in ap.conds] for e in ev)
+            if from_calls and kept_up:
+                good = True
+                dd = [d]
     t = ast.unparse(dd[0])[:90] if dd else "(none)"
     rep.ob("de-duplication compares the last chain elements", good,
            "a procedure reached through different receiver chains is recorded once" if good else
@@ -194,10 +219,12 @@ def r2_filter_dominance(ctx, rep):
     rep.ob("unresolved calls keep their name", ok, "", py.nloc(co))
     # function references are searched at every parenthesis depth: strip_paren(line, <d>) inside a loop that increments <d>
     sp = [e for e in ev if e.kind == "call" and call_name(e.node).endswith("strip_paren") and len(e.node.args) >= 2]
-    loops = [n for n in ast.walk(fn) if isinstance(n, ast.While)]
+    loops = [n for n in ast.walk(fn) if isinstance(n, (ast.While, ast.For))]
     ok = False
     for lp in loops:
         incs = {ast.unparse(n.target) for n in ast.walk(lp) if isinstance(n, ast.AugAssign) and isinstance(n.op, ast.Add)}
+        if isinstance(lp, ast.For) and isinstance(lp.iter, ast.Call) and call_name(lp.iter).split(".")[-1] == "count":
+            incs.add(ast.unparse(lp.target))          # `for depth in itertools.count(start)`
         calls_in = [c for c in ast.walk(lp) if isinstance(c, ast.Call) and call_name(c).endswith("strip_paren") and len(c.args) >= 2
                     and ast.unparse(c.args[1]) in incs]
         finds = [c for c in ast.walk(lp) if isinstance(c, ast.Call) and call_name(c).endswith("CALL_RE.finditer")]
